@@ -53,13 +53,13 @@ def _flow(ctx, caller_q, callee_suffix, mapping, must_guard=None):
     """In caller, the call resolved to *callee_suffix binds callee param <- expr
     mentioning the caller-side name, for each (callee_param, caller_name)."""
     f = ctx.func(caller_q)
-    hits = [(c, r) for c, r in q.calls_in(ctx, f) if r.kind == 'package' and any(t.qualname.endswith(callee_suffix) for t in r.targets) and not q.in_handler(c)]
+    hits = [(c, r) for c, r in q.calls_in(ctx, f) if r.kind in ('package', 'ambiguous') and any(t.qualname.endswith('.' + callee_suffix) for t in r.targets) and not q.in_handler(c)]
     ctx.need(hits or True, '')
     if not hits:
         ctx.ob(f, f'call to {callee_suffix}', False, f'{caller_q} no longer calls {callee_suffix}: the cancellation message/type cannot reach the exception')
         return
     for c, r in hits:
-        t = [t for t in r.targets if t.qualname.endswith(callee_suffix)][0]
+        t = [t for t in r.targets if t.qualname.endswith('.' + callee_suffix)][0]
         b = q.bind_args(ctx, c, f, t) or {}
         for callee_param, caller_name in mapping:
             a = b.get(callee_param)
@@ -77,8 +77,13 @@ def message_and_type_reach_exception(ctx):
     _flow(ctx, 'manager.TransferManager.shutdown', 'TransferManager._shutdown', [('cancel', 'cancel'), ('cancel_msg', 'cancel_msg')])
     _flow(ctx, 'manager.TransferManager._shutdown', 'TransferCoordinatorController.cancel', [('msg', 'cancel_msg'), ('exc_type', 'exc_type')])
     _flow(ctx, 'manager.TransferCoordinatorController.cancel', 'TransferCoordinator.cancel', [('msg', 'msg'), ('exc_type', 'exc_type')])
-    _flow(ctx, 'manager.TransferManager.__exit__', 'TransferManager._shutdown',
-          [('cancel', 'cancel'), ('cancel_msg', 'cancel_msg'), ('exc_type', 'cancel_exc_type')])
+    # __exit__: the three values handed to _shutdown are locals; find them through the call
+    ex = ctx.func('manager.TransferManager.__exit__')
+    sd = [c for c, r in q.calls_in(ctx, ex) if r.kind == 'package' and any(t.qualname == 'manager.TransferManager._shutdown' for t in r.targets)]
+    ctx.ob(ex, '__exit__ calls self._shutdown(cancel, cancel_msg, cancel_exc_type)', len(sd) == 1, '__exit__ must shut down (and cancel on error)')
+    b = (q.bind_args(ctx, sd[0], ex, ctx.func('manager.TransferManager._shutdown')) or {}) if sd else {}
+    ncancel, nmsg, ntype = [b.get(k).id if isinstance(b.get(k), ast.Name) else None for k in ('cancel', 'cancel_msg', 'exc_type')]
+    ctx.ob(ex, 'all three values are passed to their own parameters', None not in (ncancel, nmsg, ntype) and len({ncancel, nmsg, ntype}) == 3, f'{ncancel}, {nmsg}, {ntype}')
     # _shutdown: the cancel call is control dependent on `cancel` only
     f = ctx.func('manager.TransferManager._shutdown')
     for c, r in q.calls_in(ctx, f):
@@ -88,7 +93,7 @@ def message_and_type_reach_exception(ctx):
     # controller.cancel iterates every tracked coordinator
     f = ctx.func('manager.TransferCoordinatorController.cancel')
     for c, r in q.calls_in(ctx, f):
-        if r.kind == 'package' and any(t.qualname == 'futures.TransferCoordinator.cancel' for t in r.targets):
+        if r.kind in ('package', 'ambiguous') and any(t.qualname == 'futures.TransferCoordinator.cancel' for t in r.targets):
             loop = q.in_loop(c)
             ok = isinstance(loop, ast.For) and 'tracked_transfer_coordinators' in norm(loop.iter) and not q.guards(c)
             ctx.ob(f, c, ok, 'cancel must be applied unconditionally to every tracked coordinator')
@@ -104,7 +109,7 @@ def message_and_type_reach_exception(ctx):
     ctx.ob(f, stores[0] if stores else 'self._exception = exc_type(msg)', ok, 'cancel must store exc_type(msg) as the exception')
     # __exit__: type selection
     f = ctx.func('manager.TransferManager.__exit__')
-    defs = q.local_defs(f, 'cancel_exc_type')
+    defs = q.local_defs(f, ntype or 'cancel_exc_type')
     vals = {}
     for st, v in defs:
         vals.setdefault(norm(v), []).append(q.guard_texts(st))
@@ -112,10 +117,10 @@ def message_and_type_reach_exception(ctx):
     ok_ki = any(any('isinstance(exc_value, KeyboardInterrupt)' == t and pol for t, pol in g) for g in vals.get('CancelledError', []))
     ctx.ob(f, 'cancel_exc_type selection', ok_default and ok_ki and set(vals) == {'FatalError', 'CancelledError'},
            f'exception type must default to FatalError and be CancelledError exactly under isinstance(exc_value, KeyboardInterrupt); found {sorted(vals)}')
-    defs = q.local_defs(f, 'cancel')
-    ok = any(norm(v) == 'True' and g == [('exc_type', True)] for st, v in defs for g in [q.guard_texts(st)])
+    defs = q.local_defs(f, ncancel or 'cancel')
+    ok = any(norm(v) == 'True' and g == [('exc_type', True)] for st, v in defs for g in [q.guard_texts(st)]) and any(norm(v) == 'False' and not q.guards(st) for st, v in defs)
     ctx.ob(f, 'cancel = True under exc_type', ok, 'leaving the with-block through an exception must request cancellation')
-    defs = q.local_defs(f, 'cancel_msg')
+    defs = q.local_defs(f, nmsg or 'cancel_msg')
     ok = any('exc_value' in norm(v) for st, v in defs if isinstance(v, ast.AST))
     ctx.ob(f, 'cancel_msg derives from exc_value', ok, 'the cancellation message must derive from the exception value')
 
